@@ -161,6 +161,13 @@ type Config struct {
 	Horizon       time.Duration // simulated time budget
 	KeepLog       bool          // keep the full event log (replay / debugging)
 	MaxStall      time.Duration // longest stall injected (0 = no cap)
+	// StallWindow/StallBudget bound the injected stall time: within any StallWindow of simulated
+	// time at most StallBudget is injected in total (0 = unbounded); further stalls in that window
+	// last 1 ms. Scenarios whose subject has a
+	// legitimate short timeout use it so that a chain of stalls on the one task everything waits
+	// for cannot add up to that timeout (a slow node the library is designed to give up on).
+	StallWindow time.Duration
+	StallBudget time.Duration
 	DrainSteps    int           // extra steps granted after main returned, to let tasks exit
 	DrainTime     time.Duration // extra simulated time granted after main returned
 }
@@ -186,6 +193,7 @@ type Sim struct {
 	LibSteps   int // steps of tasks spawned by library code (sites under repo/)
 	Switches   int
 	Stalls     int
+	stallHist  []stallRec
 	Unowned    int
 	seq        uint64
 	logHash    hash.Hash
@@ -1006,6 +1014,33 @@ var stallDurations = []time.Duration{
 // index into stallDurations, short stalls are more likely
 var stallWeights = []int{0, 0, 0, 1, 1, 1, 2, 2, 2, 3, 3, 4, 4, 5, 6, 7}
 
+type stallRec struct {
+	at time.Time
+	d  time.Duration
+}
+
+// stallAllowed applies Cfg.StallWindow/StallBudget and books the stall when it fits.
+func (s *Sim) stallAllowed(now time.Time, d time.Duration) bool {
+	if s.Cfg.StallWindow <= 0 || s.Cfg.StallBudget <= 0 {
+		return true
+	}
+	keep := s.stallHist[:0]
+	var sum time.Duration
+	for _, r := range s.stallHist {
+		if now.Sub(r.at) < s.Cfg.StallWindow {
+			keep = append(keep, r)
+			sum += r.d
+		}
+	}
+	s.stallHist = keep
+	if sum+d > s.Cfg.StallBudget {
+		s.Probes["sched.stall-shortened-by-budget"]++
+		return false
+	}
+	s.stallHist = append(s.stallHist, stallRec{now, d})
+	return true
+}
+
 // Run drives the simulation until main returns, a violation is recorded, or
 // the step / time budget is exhausted. It must be called from the root
 // goroutine of a synctest bubble.
@@ -1113,6 +1148,11 @@ func (s *Sim) Run(main func()) {
 			d := stallDurations[stallWeights[s.Tape.Choose("stall.dur", len(stallWeights))]]
 			if s.Cfg.MaxStall > 0 && d > s.Cfg.MaxStall {
 				d = s.Cfg.MaxStall
+			}
+			if !s.stallAllowed(now, d) {
+				// budget of the current window used up: the task is still descheduled (the
+				// interleaving effect of a stall), but only for the shortest duration
+				d = stallDurations[0]
 			}
 			cand[k].stallUntil = now.Add(d)
 			s.Stalls++
